@@ -114,6 +114,11 @@ class Gen(object):
 
         names = ['Mod{}'.format(chr(ord('A') + i)) for i in range(n_modules)]
 
+        # Source order need not be alphabetical order (pformat sorts the
+        # keys of a persisted specification dictionary).
+        if rng.random() < 0.5:
+            rng.shuffle(names)
+
         # Later modules may import from earlier ones.
         for index, name in enumerate(names):
             module = Node(name=name,
@@ -866,9 +871,9 @@ class Gen(object):
                 and self.rng.random() < 0.4 and own_tags is None
                 and self.cur.tags == 'AUTOMATIC'):
             # COMPONENTS OF an earlier SEQUENCE of this module.
-            candidates = [n for n, node in self.cur.types
+            candidates = [n for n, node in self.visible_types()
                           if node.k == 'SEQUENCE' and not node.recursive_inside
-                          and not node.has_ext]
+                          and not node.has_ext and not node.tagged_top]
 
             if candidates:
                 components_of = 'COMPONENTS OF {}, '.format(
@@ -893,7 +898,7 @@ class Gen(object):
                         m.node.recursive or m.node.recursive_inside
                         for m in flat))
 
-    def gen_choice(self, depth):
+    def gen_choice(self, depth, force_ext=False):
         rng = self.rng
         count = rng.randint(1, max(1, self.max_members))
         members = []
@@ -907,7 +912,7 @@ class Gen(object):
             members.append(Node(name=name, node=node, modifier=''))
 
         additions = []
-        has_ext = self.has('ext') and rng.random() < 0.35
+        has_ext = force_ext or (self.has('ext') and rng.random() < 0.35)
 
         if has_ext:
             for _ in range(rng.choice([0, 1, 2])):
@@ -937,7 +942,16 @@ class Gen(object):
     def gen_list(self, kind, depth):
         rng = self.rng
         self.recursion_ok = True
-        element = self.gen_type(depth + 1, nonzero=self.zero_width_matters())
+
+        if (self.has('ext') and self.has('choice') and rng.random() < 0.25
+                and depth < self.max_depth):
+            # A list of extensible CHOICE values: decoders must skip unknown
+            # alternatives element by element.
+            element = self.gen_choice(depth + 1, force_ext=True)
+        else:
+            element = self.gen_type(depth + 1,
+                                    nonzero=self.zero_width_matters())
+
         self.recursion_ok = False
         size = ''
         zero = False
